@@ -421,6 +421,75 @@ Fixpoint check_bucket (aggs : list (Z * agg)) (cs : list calc) (os : list obs) :
   | _, _, _ => false
   end.
 
+(* ---------- Merge (aggregations.go:76-84 Bucket.Merge and the calculators' Merge) ---------- *)
+
+(* terms.go:113-123: a bucket of the other list is merged into the local bucket of the same name,
+   or appended *)
+Section MergeInto.
+  Variable mb : list calc -> list calc -> list calc.     (* Bucket.Merge on two buckets' calculators *)
+  Fixpoint merge_into (b1 : list (bytes * list calc)) (ob : bytes * list calc) : list (bytes * list calc) :=
+    match b1 with
+    | [] => [ob]
+    | (nm, cs) :: r => if beqb nm (fst ob) then (nm, mb cs (snd ob)) :: r else (nm, cs) :: merge_into r ob
+    end.
+  Definition merge_terms (b1 b2 : list (bytes * list calc)) : list (bytes * list calc) := fold_left merge_into b2 b1.
+
+  Fixpoint merge_buckets (bs1 bs2 : list (list calc)) : list (list calc) :=
+    match bs1, bs2 with
+    | c1 :: r1, c2 :: r2 => mb c1 c2 :: merge_buckets r1 r2
+    | _, _ => []
+    end.
+End MergeInto.
+
+(* Calculator.Merge(other).  Both sides come from the same aggregation definition (the only use:
+   shards of one request), so Bucket.Merge pairs the calculators by name = by position.
+   metric.go:104-108 (compute(s, other.val)), :170-175; cardinality.go:59-63 / percentiles.go:72-76
+   (sketch merge: modelled as the concatenation of what was inserted); terms.go:107-131 (total,
+   bucket lists; the closing Finish() is, as everywhere, the relation check_obs validates);
+   range.go:87-95 / range_date.go:92-100 (pairwise when the lengths agree). *)
+Fixpoint merge (a : agg) (k1 k2 : calc) {struct a} : calc :=
+  let merge_subs := fix go (subs : list (Z * agg)) (cs1 cs2 : list calc) : list calc :=
+      match subs, cs1, cs2 with
+      | (_, a') :: sr, c1 :: r1, c2 :: r2 => merge a' c1 c2 :: go sr r1 r2
+      | _, _, _ => []
+      end in
+  match a, k1, k2 with
+  | ASingle op _ _, KVal v1, KVal v2 => KVal (single_step op v1 v2)
+  | AWAvg _ _, KWAvg a1 b1, KWAvg a2 b2 => KWAvg (xadd a1 a2) (xadd b1 b2)
+  | ACard _, KFedT f1, KFedT f2 => KFedT (f1 ++ f2)
+  | AQuant _, KFedN f1, KFedN f2 => KFedN (f1 ++ f2)
+  | ATerms _ _ subs, KTerms b1 t1, KTerms b2 t2 => KTerms (merge_terms (merge_subs subs) b1 b2) (t1 + t2)
+  | ARange _ _ subs, KBuckets bs1, KBuckets bs2 =>
+      if (length bs1 =? length bs2)%nat then KBuckets (merge_buckets (merge_subs subs) bs1 bs2) else k1
+  | ADateRange _ _ subs, KBuckets bs1, KBuckets bs2 =>
+      if (length bs1 =? length bs2)%nat then KBuckets (merge_buckets (merge_subs subs) bs1 bs2) else k1
+  | _, _, _ => k1
+  end.
+
+Fixpoint merge_subs (subs : list (Z * agg)) (cs1 cs2 : list calc) : list calc :=
+  match subs, cs1, cs2 with
+  | (_, a') :: sr, c1 :: r1, c2 :: r2 => merge a' c1 c2 :: merge_subs sr r1 r2
+  | _, _, _ => []
+  end.
+
+(* the state a finished calculator is left in, given the bucket order Finish was observed to
+   choose: terms keep the returned buckets only (terms.go:145), in that order *)
+Definition finish_with (a : agg) (k : calc) (o : obs) : calc :=
+  match a, k, o with
+  | ATerms _ _ _, KTerms bks total, OTerms obks _ =>
+      KTerms (flat_map (fun ob => match lookup_bucket (fst ob) bks with
+                                  | Some cs => [(fst ob, cs)]
+                                  | None => []
+                                  end) obks) total
+  | _, _, _ => k
+  end.
+
+Fixpoint finish_bucket (aggs : list (Z * agg)) (cs : list calc) (os : list obs) : list calc :=
+  match aggs, cs, os with
+  | (_, a) :: ar, c :: cr, o :: or => finish_with a c o :: finish_bucket ar cr or
+  | _, _, _ => []
+  end.
+
 (* ---------- the collectors ---------- *)
 
 (* collector/topn.go with the root bucket as the consumer *)
